@@ -5,10 +5,14 @@
 Require Extraction.
 Require Import ExtrOcamlBasic.
 From Verif Require Import Base.Str Base.Lines Base.Outcome.
-From Verif Require Import Model.RuleId Model.Root.
+From Verif Require Import Model.RuleId Model.Root Model.Renumber Model.Copyright.
+From Verif Require Import Gen.Consts.
 Extraction Language OCaml.
 Extraction "model.ml"
   Str.dec Str.hex Str.dec_value
   Lines.scan Lines.unlines
   RuleId.parse_rule_id RuleId.match_rule_id_file_name
-  Root.find_root.
+  Root.find_root
+  Renumber.process_yaml Renumber.renumber_file
+  Copyright.update_rules
+  Consts.parse_uint_bits Consts.max_scan_token_size Consts.standard_header.
